@@ -202,18 +202,18 @@ static int muggle_log_file_time_rot_handler_write(
 		muggle_mutex_lock(&base_handler->mtx);
 	}
 
+	if (handler->fp && muggle_log_file_time_rot_handler_detect(handler, msg))
+	{
+		if (muggle_log_file_time_rot_handler_rotate(handler) != 0)
+		{
+			fprintf(stderr, "failed rotate log handler\n");
+		}
+	}
+
 	if (handler->fp)
 	{
 		ret = (int)fwrite(buf, 1, ret, handler->fp);
 		fflush(handler->fp);
-
-		if (muggle_log_file_time_rot_handler_detect(handler, msg))
-		{
-			if (muggle_log_file_time_rot_handler_rotate(handler) != 0)
-			{
-				fprintf(stderr, "failed rotate log handler\n");
-			}
-		}
 	}
 
 	if (base_handler->need_mutex)
